@@ -1,0 +1,47 @@
+//go:build verif && !js
+
+package websocket
+
+import (
+	"bufio"
+	"encoding/json"
+	"os"
+	"sync"
+)
+
+// With the verif tag, setting VERIF_TRACE_FILE makes every event go to that file as NDJSON in
+// one global order, so that the package's own tests can be trace-validated unchanged.
+func init() {
+	path := os.Getenv("VERIF_TRACE_FILE")
+	if path == "" {
+		return
+	}
+	f, err := os.OpenFile(path, os.O_CREATE|os.O_WRONLY|os.O_APPEND, 0o644)
+	if err != nil {
+		return
+	}
+	var mu sync.Mutex
+	w := bufio.NewWriterSize(f, 1<<16)
+	enc := json.NewEncoder(w)
+	type line struct {
+		C  int64  `json:"c"`
+		G  int64  `json:"g"`
+		Ev string `json:"ev"`
+		L  string `json:"l"`
+		S  string `json:"s"`
+		A  int64  `json:"a"`
+		B  int64  `json:"b"`
+		D  int64  `json:"d"`
+		E  int64  `json:"e"`
+	}
+	n := 0
+	VerifSink = func(e VerifEvent) {
+		mu.Lock()
+		enc.Encode(line{e.Conn, e.G, e.Ev, e.L, e.S, e.A, e.B, e.D, e.E})
+		n++
+		if n%64 == 0 || e.Ev == "CloseExit" || e.Ev == "TLExit" {
+			w.Flush()
+		}
+		mu.Unlock()
+	}
+}
